@@ -1698,7 +1698,7 @@ func boringCall(id string) bool {
 	if strings.HasPrefix(id, "ext:go.uber.org/zap") || strings.HasPrefix(id, "ext:fmt.") || strings.HasPrefix(id, "ext:errors.") || id == "ext:error.Error" {
 		return true
 	}
-	if strings.HasPrefix(id, "if:") && pureExt(id) && !strings.HasPrefix(id, "if:Timer.") {
+	if strings.HasPrefix(id, "if:") && pureExt(id) && !strings.HasPrefix(id, "if:Timer.") && !strings.HasPrefix(id, "if:RecoveryMessage.") {
 		return true
 	}
 	return false
